@@ -197,54 +197,64 @@ pub fn valid_witness<T: Copy + PartialEq>(hay: &[T], needle: &[T], idx: &[u32]) 
     true
 }
 
-/// Maximum of `score_of` over ALL alignments (exhaustive; for the tiny sizes of the harnesses).
-/// Returns None when the needle is not a subsequence.
+/// Maximum of `score_of` over ALL alignments (exhaustive; nested loops of depth N <= 4 so that
+/// every loop is bounded by H). Returns None when the needle is not a subsequence.
 pub fn best_over_all<T: Copy + PartialEq, const H: usize, const N: usize>(
     hay: &[T; H],
     needle: &[T; N],
     bonus: &[u32; H],
 ) -> Option<u32> {
-    // enumerate index vectors with an odometer
-    let mut idx = [0u32; N];
-    let mut k = 0;
-    while k < N {
-        idx[k] = k as u32;
-        k += 1;
-    }
+    assert!(N >= 1 && N <= 4);
     let mut best: Option<u32> = None;
-    loop {
-        let mut ok = true;
-        let mut k = 0;
-        while k < N {
-            if hay[idx[k] as usize] != needle[k] {
-                ok = false;
-            }
-            k += 1;
-        }
-        if ok {
-            let s = score_of(bonus, &idx, N);
-            best = match best {
-                Some(b) if b >= s => Some(b),
-                _ => Some(s),
-            };
-        }
-        // next combination
-        let mut i = N;
-        loop {
-            if i == 0 {
-                return best;
-            }
-            i -= 1;
-            if (idx[i] as usize) < H - (N - i) {
-                idx[i] += 1;
-                let mut j = i + 1;
-                while j < N {
-                    idx[j] = idx[j - 1] + 1;
-                    j += 1;
+    let mut idx = [0u32; N];
+    let mut a = 0;
+    while a < H {
+        if hay[a] == needle[0] {
+            idx[0] = a as u32;
+            if N == 1 {
+                best = max_opt(best, score_of(bonus, &idx, N));
+            } else {
+                let mut b = a + 1;
+                while b < H {
+                    if hay[b] == needle[1 % N] {
+                        idx[1 % N] = b as u32;
+                        if N == 2 {
+                            best = max_opt(best, score_of(bonus, &idx, N));
+                        } else {
+                            let mut c = b + 1;
+                            while c < H {
+                                if hay[c] == needle[2 % N] {
+                                    idx[2 % N] = c as u32;
+                                    if N == 3 {
+                                        best = max_opt(best, score_of(bonus, &idx, N));
+                                    } else {
+                                        let mut d = c + 1;
+                                        while d < H {
+                                            if hay[d] == needle[3 % N] {
+                                                idx[3 % N] = d as u32;
+                                                best = max_opt(best, score_of(bonus, &idx, N));
+                                            }
+                                            d += 1;
+                                        }
+                                    }
+                                }
+                                c += 1;
+                            }
+                        }
+                    }
+                    b += 1;
                 }
-                break;
             }
         }
+        a += 1;
+    }
+    best
+}
+
+fn max_opt(best: Option<u32>, s: u32) -> Option<u32> {
+    match best {
+        Some(b) if b >= s => Some(b),
+        _ => Some(s),
     }
 }
 
